@@ -276,7 +276,7 @@ Definition exec_errres (m : module) (next : bool) : M unit :=
     do r <- find_stmt_at m stmts (trapped_addr s);
     match r with
     | None => trap T_CANNOT_RESUME
-    | Some (a, b) => modify (fun s => set_pc s (if next then b else a))
+    | Some (a, b) => modify (fun s => set_handler_active (set_pc s (if next then b else a)) false)
     end
   end.
 
@@ -366,7 +366,7 @@ Definition exec (m : module) (i : instr) : M unit :=
     | CI z | CL z => push 1 (PInt z)
     | CS f | CD f =>
       match f with
-      | FNaN => crashM CrValue | FInf _ => crashM CrOverflow
+      | FNaN => trap T_INVALID_CELL_VALUE | FInf _ => trap T_INVALID_CELL_VALUE
       | _ => match fround f with Some z => push 1 (PInt z) | None => crashM CrAssert end
       end
     | _ => crashM CrAssert
@@ -378,7 +378,7 @@ Definition exec (m : module) (i : instr) : M unit :=
     | CI z | CL z => push 2 (PInt z)
     | CS f | CD f =>
       match f with
-      | FNaN => crashM CrValue | FInf _ => crashM CrOverflow
+      | FNaN => trap T_INVALID_CELL_VALUE | FInf _ => trap T_INVALID_CELL_VALUE
       | _ => match fround f with Some z => push 2 (PInt z) | None => crashM CrAssert end
       end
     | _ => crashM CrAssert
@@ -399,7 +399,7 @@ Definition exec (m : module) (i : instr) : M unit :=
     | CS f | CD f =>
       if (dst =? 1) || (dst =? 2) then
         match f with
-        | FNaN => crashM CrValue | FInf _ => crashM CrOverflow
+        | FNaN => trap T_INVALID_CELL_VALUE | FInf _ => trap T_INVALID_CELL_VALUE
         | _ => match fround f with Some z => push dst (PInt z) | None => crashM CrAssert end
         end
       else push dst (PFlt f)
@@ -439,7 +439,7 @@ Definition exec (m : module) (i : instr) : M unit :=
     do s <- get;
     match last_trap s with
     | Some t => push 1 (PInt t)
-    | None => crashM CrAttr
+    | None => push 1 (PInt 0)
     end
   | IErrhand t =>
     do s <- get;
@@ -458,8 +458,8 @@ Definition exec (m : module) (i : instr) : M unit :=
     match py_pow (pv a) (pv b) with
     | PowV v => push (cell_ty a) v
     | PowZeroDiv => (fun s => ZD s)
-    | PowOverflow => crashM CrOverflow
-    | PowComplex => if cell_ty a =? 3 then crashM CrStruct else crashM CrType
+    | PowOverflow => trap T_INVALID_CELL_VALUE
+    | PowComplex => trap T_INVALID_OPERAND_VALUE
     | PowUnknown => crashM CrPowUnknown
     end
   | IFrame p l =>
@@ -526,7 +526,7 @@ Definition exec (m : module) (i : instr) : M unit :=
     | CI z | CL z => push 2 (PInt z)
     | CS f | CD f =>
       match f with
-      | FNaN => crashM CrValue | FInf _ => crashM CrOverflow
+      | FNaN => trap T_INVALID_CELL_VALUE | FInf _ => trap T_INVALID_CELL_VALUE
       | _ => match ffloor f with Some z => push 2 (PInt z) | None => crashM CrAssert end
       end
     | _ => crashM CrAssert
@@ -716,7 +716,7 @@ Definition exec (m : module) (i : instr) : M unit :=
     if len <? 0 then trap T_INVALID_OPERAND_VALUE else
     match ch with
     | CI z =>
-      if (z <? 0) || (z >? 255) then crashM CrValue
+      if (z <? 0) || (z >? 255) then trap T_INVALID_OPERAND_VALUE
       else push 5 (PStrV (repeat (cp437_decode [] z) (Z.to_nat len)))
     | CStr s =>
       match s with
@@ -741,12 +741,13 @@ Inductive tick_out :=
 (* QvmCpu._trap *)
 Definition do_trap (m : module) (code : Z) (kw_ok : bool) (s0 : st) : tick_out :=
   let s := set_last_trap s0 (Some code) kw_ok in
+  let report (s : st) := if kw_ok then Next (set_halt s true H_TRAP) else Crash CrKey s in
   if negb (handler_active s) && (match ttarget_ s with TNone => false | _ => true end) then
     match ttarget_ s with
     | TNext =>
       match exec_errres m true s with
       | R _ s' => Next s'
-      | T _ _ s' => Crash CrTrapped (set_trapped_addr s' (prev_pc s'))   (* Trapped escapes tick(); cpu.trap() recorded the address *)
+      | T _ _ s' => report (set_trapped_addr s' (prev_pc s'))   (* cannot resume: the original error is reported *)
       | ZD s' => Crash CrAssert s'
       | X k s' => Crash k s'
       | NI s' => NeedInput s'
@@ -754,8 +755,7 @@ Definition do_trap (m : module) (code : Z) (kw_ok : bool) (s0 : st) : tick_out :
     | TAddr a => Next (set_handler_active (set_pc s a) true)
     | TNone => Next s
     end
-  else if kw_ok then Next (set_halt s true H_TRAP)
-  else Crash CrKey s.              (* the diagnostic print reads a missing kwarg *)
+  else report s.              (* the diagnostic print reads a missing kwarg -> KeyError *)
 
 Definition code_len (m : module) : Z := Z.of_nat (length (m_code m)).
 
@@ -793,7 +793,7 @@ Definition tick (m : module) (s : st) : tick_out :=
               (match exec m i s2 with
                | R _ s3 => Next s3
                | T c kw s3 => do_trap m c kw (set_trapped_addr s3 (prev_pc s3))
-               | ZD s3 => do_trap m T_DIVISION_BY_ZERO true s3
+               | ZD s3 => do_trap m T_DIVISION_BY_ZERO true (set_trapped_addr s3 (prev_pc s3))
                | X k s3 => Crash k s3
                | NI s3 => NeedInput s3
                end)
@@ -803,7 +803,7 @@ Definition tick (m : module) (s : st) : tick_out :=
             (match exec m i s2 with
              | R _ s3 => Next s3
              | T c kw s3 => do_trap m c kw (set_trapped_addr s3 (prev_pc s3))
-             | ZD s3 => do_trap m T_DIVISION_BY_ZERO true s3
+             | ZD s3 => do_trap m T_DIVISION_BY_ZERO true (set_trapped_addr s3 (prev_pc s3))
              | X k s3 => Crash k s3
              | NI s3 => NeedInput s3
              end)
